@@ -21,8 +21,4 @@ def run(ctx, rep):
         rt.rule_rounding(rep, lg, cfg)
         rt.rule_accessor_operands(rep, lg, cfg, cfg == 'logos-forbid')
     rep.trusted += ['rustc nightly MIR', 'engines/mirfacts', 'regex-syntax Properties::is_utf8; regex-automata UTF-8 NFA compilation']
-    try:
-        from props import gen
-        gen.rules_c04(ctx, rep)
-    except ImportError:
-        pass
+    pass
